@@ -214,9 +214,9 @@ func check(it *proto.Item, r *proto.Result) []proto.Issue {
 var F = &proto.Family{ID: "C02", Gen: gen, Check: check,
 	Bound: func(tier string) int {
 		if tier == "thorough" {
-			return 1
+			return 2
 		}
-		return 0
+		return 1
 	}}
 
 func init() {
